@@ -1,3 +1,183 @@
-(* model modes that need the larger parts of the model (reader, writer, archive ...) *)
-let dispatch (mode : Stdlib.String.t) (_f : Stdlib.String.t list) : Stdlib.String.t =
-  failwith ("unknown mode " ^ mode)
+(* model modes that need the reader / writer model: printing only, no model logic *)
+open Model
+
+let rec pos_of_int (i : int) : positive =
+  if i = 1 then XH else if i land 1 = 0 then XO (pos_of_int (i lsr 1)) else XI (pos_of_int (i lsr 1))
+let n_of_int (i : int) : n = if i = 0 then N0 else Npos (pos_of_int i)
+let rec int_of_pos (p : positive) : int =
+  match p with XH -> 1 | XO q -> 2 * int_of_pos q | XI q -> 2 * int_of_pos q + 1
+let int_of_n (x : n) : int = match x with N0 -> 0 | Npos p -> int_of_pos p
+let int_of_z (x : z) : int = match x with Z0 -> 0 | Zpos p -> int_of_pos p | Zneg p -> - (int_of_pos p)
+let rec nat_of_int (i : int) : nat = if i <= 0 then O else S (nat_of_int (i - 1))
+let int_of_nat (x : nat) : int = let rec go a x = match x with O -> a | S y -> go (a + 1) y in go 0 x
+let byte_of_int (i : int) : byte = (Obj.magic (i land 255) : byte)
+let int_of_byte (b : byte) : int = (Obj.magic b : int)
+
+let bytes_of_hex (s : Stdlib.String.t) : byte list =
+  if s = "-" then [] else begin
+    let n = Stdlib.String.length s / 2 in
+    let rec go i acc = if i < 0 then acc else
+        go (i - 1) (byte_of_int (int_of_string ("0x" ^ Stdlib.String.sub s (2 * i) 2)) :: acc) in
+    go (n - 1) []
+  end
+
+let hex_of_bytes (l : byte list) : Stdlib.String.t =
+  let b = Buffer.create 64 in
+  Stdlib.List.iter (fun x -> Buffer.add_string b (Printf.sprintf "%02x" (int_of_byte x))) l;
+  Buffer.contents b
+
+let str_of_bytes (l : byte list) : Stdlib.String.t =
+  let b = Buffer.create 64 in
+  Stdlib.List.iter (fun x -> Buffer.add_char b (Char.chr (int_of_byte x))) l;
+  Buffer.contents b
+
+let coq_string_of (s : Stdlib.String.t) : Model.string =
+  let rec go i acc = if i < 0 then acc else
+      let c = Char.code s.[i] in
+      let b k = (c lsr k) land 1 = 1 in
+      go (i - 1) (String (Ascii (b 0, b 1, b 2, b 3, b 4, b 5, b 6, b 7), acc)) in
+  go (Stdlib.String.length s - 1) EmptyString
+
+let ocaml_string_of (s : Model.string) : Stdlib.String.t =
+  let b = Buffer.create 16 in
+  let rec go s = match s with
+    | EmptyString -> ()
+    | String (Ascii (b0, b1, b2, b3, b4, b5, b6, b7), r) ->
+      let v k x = if x then 1 lsl k else 0 in
+      Buffer.add_char b (Char.chr (v 0 b0 + v 1 b1 + v 2 b2 + v 3 b3 + v 4 b4 + v 5 b5 + v 6 b6 + v 7 b7));
+      go r in
+  go s; Buffer.contents b
+
+let join (sep : Stdlib.String.t) (l : Stdlib.String.t list) = Stdlib.String.concat sep l
+
+let bitmap_s (v : bool list option) : Stdlib.String.t =
+  match v with
+  | None -> "none"
+  | Some b when Stdlib.List.for_all (fun x -> x) b -> "none"
+  | Some b -> "[" ^ join "" (Stdlib.List.map (fun x -> if x then "1" else "0") b) ^ "]"
+
+let print_rows (out : Buffer.t) (label : Stdlib.String.t) (v : version) (e : Stdlib.String.t) (rows : byte list list) =
+  let ls = api_leaves v (coq_string_of e) in
+  let names = Stdlib.List.map ocaml_string_of (api_col_names ls) in
+  Buffer.add_string out (Printf.sprintf "%s.cols=%s\n" label (join "," names));
+  if names = [] then Buffer.add_string out (Printf.sprintf "%s.rows=0\n" label)
+  else begin
+    Buffer.add_string out (Printf.sprintf "%s.rows=%d\n" label (Stdlib.List.length rows));
+    Stdlib.List.iteri (fun i r ->
+        let vals = Stdlib.List.map (fun x -> string_of_int (int_of_n x)) (api_row_vals ls r) in
+        Buffer.add_string out (Printf.sprintf "%s[%d]=%s\n" label i (join "," vals))) rows
+  end
+
+let dump_cdata out label v (d : cdata) =
+  Buffer.add_string out (Printf.sprintf "%s.validity=%s\n" label (bitmap_s d.c_valid));
+  print_rows out (label ^ ".pre") v "Pre" d.c_pre;
+  print_rows out (label ^ ".post") v "Post" d.c_post
+
+let dump_frames (out : Buffer.t) (v : version) (f : frames) =
+  Buffer.add_string out (Printf.sprintf "frames.len=%d\n" (Stdlib.List.length f.f_ids));
+  Buffer.add_string out (Printf.sprintf "ids=%s\n" (join "," (Stdlib.List.map (fun x -> string_of_int (int_of_z x)) f.f_ids)));
+  Buffer.add_string out (Printf.sprintf "nports=%d\n" (Stdlib.List.length f.f_ports));
+  Stdlib.List.iteri (fun k (p : pdata) ->
+      Buffer.add_string out (Printf.sprintf "port[%d].port=%d\n" k (int_of_n p.p_port));
+      dump_cdata out (Printf.sprintf "port[%d].leader" k) v p.p_leader;
+      (match p.p_follower with
+       | None -> Buffer.add_string out (Printf.sprintf "port[%d].follower=none\n" k)
+       | Some d -> dump_cdata out (Printf.sprintf "port[%d].follower" k) v d)) f.f_ports;
+  (match f.f_start with
+   | None -> Buffer.add_string out "fstart=none\n"
+   | Some rows -> print_rows out "fstart" v "Start" rows);
+  (match f.f_end with
+   | None -> Buffer.add_string out "fend=none\n"
+   | Some rows ->
+     print_rows out "fend" v "End" rows;
+     Buffer.add_string out "fend.validity=none\n");
+  (match f.f_item_off with
+   | None -> Buffer.add_string out "item_offset=none\n"
+   | Some o -> Buffer.add_string out (Printf.sprintf "item_offset=%s\n" (join "," (Stdlib.List.map (fun x -> string_of_int (int_of_z x)) o))));
+  (match f.f_item with
+   | None -> Buffer.add_string out "item=none\n"
+   | Some rows -> print_rows out "item" v "Item" rows)
+
+let dump_start_end out (s : start_t) (e : end_t option) =
+  Buffer.add_string out (Printf.sprintf "start.bytes=%s\n" (hex_of_bytes s.st_bytes));
+  Buffer.add_string out (Printf.sprintf "start.json=%s\n" (str_of_bytes (api_cjson_start s)));
+  (match e with
+   | None -> Buffer.add_string out "end=none\n"
+   | Some e ->
+     Buffer.add_string out (Printf.sprintf "end.bytes=%s\n" (hex_of_bytes e.en_bytes));
+     Buffer.add_string out (Printf.sprintf "end.json=%s\n" (str_of_bytes (api_cjson_end e))))
+
+let dump_meta out (m : utree option) (g : gecko_t option) =
+  (match m with
+   | None -> Buffer.add_string out "metadata=none\n"
+   | Some m -> Buffer.add_string out (Printf.sprintf "metadata=%s\n" (str_of_bytes (api_cjson_meta m))));
+  (match g with
+   | None -> Buffer.add_string out "gecko=none\n"
+   | Some g -> Buffer.add_string out (Printf.sprintf "gecko=%d:%s\n" (int_of_n g.gk_actual) (hex_of_bytes g.gk_bytes)))
+
+let dump_game (out : Buffer.t) (g : game) =
+  dump_start_end out g.g_start g.g_end;
+  dump_meta out g.g_meta g.g_gecko;
+  (match g.g_hashed with
+   | None -> Buffer.add_string out "hash=none\n"
+   | Some n -> Buffer.add_string out (Printf.sprintf "hash=H(%d)\n" (int_of_nat n)));
+  (match g.g_quirk with
+   | None -> Buffer.add_string out "quirks=none\n"
+   | Some q -> Buffer.add_string out (Printf.sprintf "quirks=%d\n" (if q then 1 else 0)));
+  dump_frames out (api_game_version g) g.g_frames
+
+let outcome_head (o : 'a outcome) : Stdlib.String.t =
+  match o with
+  | Ok _ -> "OK"
+  | Err EUnknown -> "UNMODELLED"
+  | Err _ -> "ERR"
+  | Panic p -> Printf.sprintf "PANIC site=%d" (int_of_n p)
+  | Fuel -> "FUEL"
+
+(* read: <hex> <opts> [chunks] [fail] -- the flat model ignores fragmentation (Frag.v proves independence) *)
+let m_read (f : Stdlib.String.t list) : Stdlib.String.t =
+  let data = bytes_of_hex (Stdlib.List.nth f 0) in
+  let o = Stdlib.List.nth f 1 in
+  let skip = Stdlib.String.contains o 's' and hash = Stdlib.String.contains o 'h' in
+  let out = Buffer.create 4096 in
+  let total = Stdlib.List.length data in
+  (match api_read skip hash data with
+   | Ok (g, rest) ->
+     Buffer.add_string out "OK\n";
+     Buffer.add_string out (Printf.sprintf "consumed=%d/%d\n" (total - Stdlib.List.length rest) total);
+     dump_game out g
+   | r -> Buffer.add_string out (outcome_head r ^ "\n"));
+  Buffer.contents out
+
+(* rt: <hex> <opts>: read -> write -> read -> write, the same lines as pvh *)
+let m_rt (f : Stdlib.String.t list) : Stdlib.String.t =
+  let data = bytes_of_hex (Stdlib.List.nth f 0) in
+  let o = Stdlib.List.nth f 1 in
+  let skip = Stdlib.String.contains o 's' and hash = Stdlib.String.contains o 'h' in
+  let out = Buffer.create 4096 in
+  (match api_read skip hash data with
+   | Ok (g, _) ->
+     Buffer.add_string out "OK\n";
+     (match api_write g with
+      | Ok w1 ->
+        Buffer.add_string out (Printf.sprintf "write1=%s\n" (hex_of_bytes w1));
+        Buffer.add_string out (Printf.sprintf "identical=%d\n" (if w1 = data then 1 else 0));
+        (match api_read skip hash w1 with
+         | Ok (g2, _) ->
+           let d1 = Buffer.create 1024 and d2 = Buffer.create 1024 in
+           dump_game d1 g; dump_game d2 g2;
+           Buffer.add_string out "read2=OK\n";
+           Buffer.add_string out (Printf.sprintf "same_game=%d\n" (if Buffer.contents d1 = Buffer.contents d2 then 1 else 0));
+           (match api_write g2 with
+            | Ok w2 -> Buffer.add_string out (Printf.sprintf "write2_eq=%d\n" (if w2 = w1 then 1 else 0))
+            | r -> Buffer.add_string out (Printf.sprintf "write2=%s\n" (outcome_head r)))
+         | r -> Buffer.add_string out (Printf.sprintf "read2=%s\n" (outcome_head r)))
+      | r -> Buffer.add_string out (Printf.sprintf "write1=%s\n" (outcome_head r)))
+   | r -> Buffer.add_string out (outcome_head r ^ "\n"));
+  Buffer.contents out
+
+let dispatch (mode : Stdlib.String.t) (f : Stdlib.String.t list) : Stdlib.String.t =
+  match mode with
+  | "read" -> m_read f
+  | "rt" -> m_rt f
+  | _ -> failwith ("unknown mode " ^ mode)
